@@ -102,4 +102,6 @@ func edgeStream(r *vh.Rng, sum *vh.Summary) {
 		}
 		run(reflect.TypeOf(b), reflect.ValueOf(b), fmt.Sprintf("bigomit%d", k))
 	}
+	// symbol ids around the 255/256 boundary, struct-keyed maps with omitempty key fields (edge2.go)
+	edge2Stream(r, sum)
 }
